@@ -73,6 +73,14 @@ where
         }
     }
 
+    /// Drops the input arguments for the "log prune" processor.
+    ///
+    /// The arguments are derived from the header before the operation got validated, they must
+    /// not be acted upon when the "ingest" processor rejected the operation.
+    pub(crate) fn skip_log_prune(&mut self) {
+        self.log_prune_args = LogPruneArgs::Ignore;
+    }
+
     /// System-level data (append-only log, pruning coordination, etc.) of this operation.
     pub fn header(&self) -> &Header<E> {
         &self.operation.header
